@@ -149,13 +149,19 @@ func propC17(r *Run) {
 			r.Fail("harness/boot", "%v", err)
 		}
 		w.startWeb(a)
-		users := []string{"root", "alice", "bob", "legacy1", "legacy2", "m.kowalczyk@srv-qx7.zt3k.example"}
+		users := []string{"root", "alice", "bob", "legacy1", "legacy2", "m.kowalczyk@srv-qx7.zt3k.example", "qx7", "al", "z", "jo9k"}
 		n := 4 + r.Choose("nwrites", 10)
 		for k := 0; k < n; k++ {
 			u := users[r.Choose("user", len(users))]
 			pw := policyPwPool[r.Choose("pw", len(policyPwPool))]
 			if cur, ok := stored[u]; ok && r.Choose("same-password", 4) == 0 {
 				pw = cur // re-submit the current password
+			}
+			if r.Choose("password-from-name", 5) == 0 {
+				// a password built around the account's own name: the policy is evaluated with the name
+				// as known input, however short the name is
+				name := strings.SplitN(u, "@", 2)[0]
+				pw = []string{name + "-zkw9", name + "-Tr7x", name + name + "!9", strings.ToUpper(name) + ".q8Wz", "x" + name + "4k;Pm"}[r.Choose("name-pw-form", 5)]
 			}
 			_, exists := stored[u]
 			op := "update"
